@@ -176,7 +176,7 @@ def cases(tier, seed=0):
         for ls in [(3, 3, 0, 0), (3, 0, 3, 0), (0, 3, 0, 3)]:
             out.append(Block(ls=list(ls), Ks=ones, Ms=ones, exps=_exps(ls, seed, ones)))
         for ls in itertools.product(range(2), repeat=4):
-            if sum(ls) <= 2:
+            if sum(ls) <= 1:
                 out.append(Block(ls=list(ls), Ks=[2, 1, 1, 2], Ms=[1, 2, 1, 1]))
             else:
                 out.append(Block(ls=list(ls), Ks=[2, 1, 1, 2], Ms=[1, 2, 1, 1], exps=_exps(ls, 3 + seed, [2, 1, 1, 2])))
